@@ -12,6 +12,11 @@ CLAIMS = {
   "every obligation is discharged for all operands with 64-bit integers as bit-vectors and IEEE floats. The tree-walking recursion above the leaves "
   "(evaluation order, scoping) is carried by assumed frame contracts, so this is a proof of the leaf semantics and of evaluation-order clauses inside the verified callers, not of whole-program meaning.",
   "Assumed: contracts of the recursive Eval family members listed as 'assumed' in eval/verif_contracts.go; stdlib contracts in contracts/stdlib.contracts; strings shorter than 2^46; panics other than those named by maypanic clauses are obligations."),
+ "C04": ("proof",
+  "Proved for all inputs: the guard discipline of the function-result cache. applyFunction stores a result only when the callee scope's miss counter did not move during the body and the result is not an error (preconditions at the call to Cache.Set), and every call that could not be cached is counted in the caller's scope (the genuine defect found here - a callee's outside lookup did not reach the caller - is fixed); "
+  "the miss counter of every scope is monotone across every evaluator step and every Environment getter/setter (quantified frame clause on 30 functions), and applyExtension counts an extension marked DontCache before calling it. "
+  "That equal arguments and no counted lookup imply equal result and output is a two-run relation over the whole interpreter: bounded differential stand-in (1500 generated programs quick, 20000 thorough) through a build-tag hook that switches the cache off. Two genuine deviations (callers of a redefined or rebound function keep their cached results) are recorded as known findings.",
+  "Assumed: DontCache marking of extensions, Cache key construction, Go map semantics, quote/extension callbacks monotone; hook eval.VerifNoCache."),
  "C05": ("proof",
   "Proved for all inputs: the register-file discipline the optimisation depends on — MakeRegister/ReleaseRegister never panic under their capacity and LIFO contracts, "
   "evalForInteger leaves numReg unchanged on every normal-return exit (end, break, continue, return, error, rejected register) and only allocates when a slot is free, "
@@ -77,7 +82,6 @@ CLAIMS = {
 NOT_APPLICABLE = {
  "C02": "contracts for this property are not implemented yet (work in progress, see DESIGN.md section 6)",
  "C03": "contracts for this property are not implemented yet (work in progress, see DESIGN.md section 6)",
- "C04": "contracts for this property are not implemented yet (work in progress, see DESIGN.md section 6)",
  "C13": "contracts for this property are not implemented yet (work in progress, see DESIGN.md section 6)",
  "C14": "contracts for this property are not implemented yet (work in progress, see DESIGN.md section 6)",
 }
